@@ -91,6 +91,7 @@ inductive Ev
   | newAttempt (idx : Nat) (prev : Int)
   | msg (idx seq size : Nat)
   | half (idx : Nat)
+  | failed (code : Nat)        -- an attempt whose stream could not be created (pick ok, NewStream failed): finished at once
 deriving Repr, DecidableEq
 
 /-- a retry delay taken during an operation: exact (pushback) or the exponent of the backoff band -/
@@ -116,13 +117,15 @@ structure St where
   started : Bool := false
   commits : Nat := 0           -- number of transitions uncommitted → committed (onCommit calls)
   hist : List Wire := []       -- ghost: what the application has produced so far (SendMsg / CloseSend calls)
+  nsScript : List (Option Nat) := []   -- per stream creation, in order: none = NewStream succeeds, some c = it fails with status c
+  failedFin : List Nat := []   -- per attempt whose stream creation failed: how often its `finish` (Done) ran
 deriving Repr
 
 /-- the clientStream of a new RPC (before `newClientStream`'s first op): `disableRetry` also means
     the stream carries no throttler. -/
 def St.init (clientStreams serverStreams disableRetry : Bool) (pol : Option Policy) (maxBuf : Int)
-    (thr : Option Throttler) (script : List Beh) : St :=
-  { clientStreams, serverStreams, disableRetry, pol, maxBuf, script,
+    (thr : Option Throttler) (script : List Beh) (nsScript : List (Option Nat) := []) : St :=
+  { clientStreams, serverStreams, disableRetry, pol, maxBuf, script, nsScript,
     cs := { finished := false, committed := false, firstAttempt := true, numRetries := 0,
             sincePushback := 0, throttler := if disableRetry then none else thr } }
 
@@ -336,6 +339,51 @@ def St.delayOf (st : St) (d : Decision) : List Delay :=
 def St.startRetry (st : St) (d : Decision) : St × List Ev :=
   { st with cs := afterDecision st.cs d }.replayAll
 
+/-- what `shouldRetry` reads from an attempt whose stream could not be created: the pick succeeded,
+    `transport.NewStream` failed with status `code` and did not allow a transparent retry. -/
+def noStreamView (code : Nat) : Attempt :=
+  { drop := false, hasStream := false, allowTransparent := false, unprocessed := false,
+    trailersOnly := false, pushback := [], code := code }
+
+/-- One turn of `retryLocked`'s loop for a new attempt whose first replay op (pick + NewStream) fails
+    with status `c`: the counters of the decision `d` that led here are applied, the attempt is
+    finished at the top of the next iteration (`attempt.finish`: its pick's Done), and
+    `shouldRetry` judges it.  `cs.attempt` is not touched: it still is the last attempt that had a
+    stream. -/
+def St.failStep (st : St) (d : Decision) (c : Nat) : St × Decision :=
+  let st1 := { st with cs := afterDecision st.cs d, nsScript := st.nsScript.tail, failedFin := st.failedFin ++ [1] }
+  let r := shouldRetry st1.disableRetry st1.pol st1.cs (noStreamView c) 0
+  ({ st1 with cs := r.1 }, r.2)
+
+/-- `retryLocked`'s loop while stream creation keeps failing.  Returns the state, `some res` if the
+    RPC gave up (the error the operation returns), the decision still to be carried out, the
+    failed-attempt events and the delays waited. -/
+def St.failLoop : Nat → St → Decision → St × Option Res × Decision × List Ev × List Delay
+  | fuel, st, d =>
+    match st.nsScript with
+    | [] => (st, none, d, [], [])
+    | none :: rest => ({ st with nsScript := rest }, none, d, [], [])
+    | some c :: _ =>
+      let r := st.failStep d c
+      match r.2 with
+      | .noRetry => (r.1, some (.err c), r.2, [.failed c], [])
+      | .exhausted => (r.1, some (.errExhausted c), r.2, [.failed c], [])
+      | d' =>
+        match fuel with
+        | 0 => (r.1, some .outOfFuel, d', [.failed c], [])
+        | fuel + 1 =>
+          let x := St.failLoop fuel r.1 d'
+          (x.1, x.2.1, x.2.2.1, .failed c :: x.2.2.2.1, [Delay.backoff (r.1.cs.sincePushback - 1)] ++ x.2.2.2.2)
+
+/-- `retryLocked` after a positive decision: attempts are created until one has a stream (the buffer
+    is then replayed on it) or `shouldRetry` gives up on one whose stream creation failed
+    (`some res`: the error the operation returns). -/
+def St.nextAttempt (fuel : Nat) (st : St) (d : Decision) : St × Option Res × List Ev × List Delay :=
+  let f := st.failLoop fuel d
+  match f.2.1 with
+  | some r => (f.1, some r, f.2.2.2.1, f.2.2.2.2)
+  | none => ((f.1.startRetry f.2.2.1).1, none, f.2.2.2.1 ++ (f.1.startRetry f.2.2.1).2, f.2.2.2.2)
+
 /-- `withRetry(op, onSuccess)`, with `retryLocked` inlined.  `fuel` bounds the number of new
     attempts made inside one operation (`GrpcProofs.C18.fuel_suffices`: it never runs out). -/
 def St.withRetry : Nat → St → COp → St × Res × List Ev × List Delay
@@ -354,9 +402,12 @@ def St.withRetry : Nat → St → COp → St × Res × List Ev × List Delay
           match fuel with
           | 0 => (st3, .outOfFuel, ev, [])
           | fuel + 1 =>
-            let (st5, ev2) := st3.startRetry d
-            let (st6, res, ev3, dl2) := St.withRetry fuel st5 op
-            (st6, res, ev ++ ev2 ++ ev3, st3.delayOf d ++ dl2)
+            let n := st3.nextAttempt fuel d
+            match n.2.1 with
+            | some r => (n.1.commit, r, ev ++ n.2.2.1, st3.delayOf d ++ n.2.2.2)
+            | none =>
+              let w := St.withRetry fuel n.1 op
+              (w.1, w.2.1, ev ++ n.2.2.1 ++ w.2.2.1, st3.delayOf d ++ n.2.2.2 ++ w.2.2.2)
 
 /-- the wire item an operation still has to put on the current attempt and into the buffer. -/
 def St.pendOf (st : St) : COp → List Wire
@@ -377,11 +428,34 @@ def Raw.isFail : Raw → Bool
 
 def St.settle (st : St) : St := { st with atts := react st.atts }
 
-/-- `newClientStream`: first op through `withRetry`; the attempt is created inline. -/
-def St.opNew (st : St) : St × Res × List Ev × List Delay :=
+/-- `newClientStream` when the first stream creation succeeds: the attempt is created inline and
+    the stream-creating op is buffered. -/
+def St.opNewOk (st : St) : St × Res × List Ev × List Delay :=
   let (st1, ev) := st.newAttempt
   let st2 := { st1 with started := true }.buffer 0 .start
   (st2.settle, .ok, ev, [])
+
+/-- `newClientStream`: first op through `withRetry`.  While stream creation fails (`nsScript`) the
+    failed attempt is finished and judged by `shouldRetry`; a positive decision makes `withRetry`
+    create the next attempt; a negative one makes NewStream return the error (there is no stream). -/
+def St.opNew : Nat → St → St × Res × List Ev × List Delay
+  | fuel, st =>
+    match st.nsScript with
+    | [] => st.opNewOk
+    | none :: rest => ({ st with nsScript := rest } : St).opNewOk
+    | some c :: rest =>
+      let st1 : St := { st with nsScript := rest, failedFin := st.failedFin ++ [1] }
+      let r := shouldRetry st1.disableRetry st1.pol st1.cs (noStreamView c) 0
+      let st2 : St := { st1 with cs := r.1 }
+      match r.2 with
+      | .noRetry => (st2.commit, .err c, [.failed c], [])
+      | .exhausted => (st2.commit, .errExhausted c, [.failed c], [])
+      | d' =>
+        match fuel with
+        | 0 => (st2, .outOfFuel, [.failed c], [])
+        | fuel + 1 =>
+          let x := St.opNew fuel { st2 with cs := afterDecision r.1 d' }
+          (x.1, x.2.1, .failed c :: x.2.2.1, [Delay.backoff (r.1.sincePushback - 1)] ++ x.2.2.2)
 
 /-- SendMsg up to `withRetry`: the application has now produced the message (ghost `hist`); a
     non-client-streaming RPC marks `sentLast`. -/
@@ -467,8 +541,41 @@ def St.opRecvW (fuel : Nat) (st : St) : St × Res × List Ev × List Delay :=
       (r2.1, (match r2.2.1 with | .eof => .msg n | .msg _ => .err 13 | x => x), r.2.2.1 ++ r2.2.2.1, r.2.2.2 ++ r2.2.2.2)
     | _ => r
 
+/-- SendMsg and RecvMsg used concurrently (one sender, one receiver: the supported concurrency),
+    in the one schedule `cs.mu` does not exclude: `withRetry` releases the lock around `op(a)`, so
+    after the sender's transport write on attempt `a` the receiver can run — fail, decide to retry,
+    create the next attempt and replay the buffer, which does not hold the sender's message yet —
+    before the sender re-acquires the lock.  The sender then finds `a != cs.attempt` and runs its
+    op again on the current attempt (from the top of `withRetry`); otherwise it buffers the op.
+    When the sender's write cannot happen on the current attempt (dead stream, committed RPC,
+    non-client-streaming) nothing interleaves and the two calls run one after the other.
+    Returns the state, SendMsg's result, RecvMsg's result and the server-side events. -/
+def St.resumeSend (fuel : Nat) (r1 : St) (idx : Nat) (size : Nat) : St × Res × List Ev × List Delay :=
+  if r1.curIdx ≠ idx then St.withRetry fuel r1 (.send size)
+  else (r1.onSuccess (.send size), Res.ok, [], [])
+
+/-- a RecvMsg that was still blocked when the sender returned gets to run on -/
+def St.recvAgain (fuel : Nat) (s4 : St) (rR : Res) : St × Res × List Ev :=
+  if rR = .blocked then ((s4.opRecvW fuel).1, (s4.opRecvW fuel).2.1, (s4.opRecvW fuel).2.2.1) else (s4, rR, [])
+
+/-- the interleaved schedule proper: `s0` is the state after `beginSend`, its current attempt alive -/
+def St.opSendRecvWindow (fuel : Nat) (s0 : St) (size : Nat) : St × Res × Res × List Ev :=
+  let w := s0.applyOp (.send size)              -- the sender's transport write, on the current attempt
+  let s1 := w.1.settle
+  let r := s1.opRecvW fuel                       -- the receiver runs, and may retry, in the window
+  let s := r.1.resumeSend fuel s1.curIdx size    -- the sender re-enters withRetry
+  let s4 := s.1.endSend s.2.1
+  let f := s4.recvAgain fuel r.2.1
+  (f.1, s.2.1, f.2.1, w.2.2 ++ r.2.2.1 ++ s.2.2.1 ++ f.2.2)
+
+def St.opSendRecv (fuel : Nat) (st : St) (size : Nat) : St × Res × Res × List Ev :=
+  if st.sentLast ∨ !st.clientStreams ∨ (st.beginSend size).cs.committed ∨ (st.beginSend size).curDead then
+    ((st.opSendW fuel size).1.opRecvW fuel |>.1, (st.opSendW fuel size).2.1,
+     ((st.opSendW fuel size).1.opRecvW fuel).2.1, (st.opSendW fuel size).2.2.1 ++ ((st.opSendW fuel size).1.opRecvW fuel).2.2.1)
+  else (st.beginSend size).opSendRecvWindow fuel size
+
 def St.step (fuel : Nat) (st : St) : AppOp → St × Res × List Ev × List Delay
-  | .new => st.opNew
+  | .new => st.opNew fuel
   | .send n => st.opSendW fuel n
   | .close => st.opClose fuel
   | .recv => st.opRecvW fuel
